@@ -131,7 +131,7 @@ impl Circuit {
                 return Err(CircuitError::InvalidOutput(o));
             }
         }
-        if self.insts.len() > MAX_GATES {
+        if self.insts.len() > MAX_GATES || self.max_reg_count > MAX_GATES {
             return Err(CircuitError::MaxCircuitSizeExceeded);
         }
 
